@@ -108,7 +108,9 @@ def usb_packets(n: int) -> list[bytes]:
     return out
 
 
-def session(segs, chunks_of, recv_cb="ok"):
+def session(segs, chunks_of, recv_cb="ok", deaf_until: int | None = None):
+    """deaf_until = i: no receive callback is registered while the first i pieces arrive (set_receive_callback is called late, or
+    was given None for a while); valid packets complete by then are nobody's - but what the client holds back stays bounded"""
     stream = b"".join(seg_bytes(s) for s in segs)
     sess = vloop.Session()
     held: list[int] = []
@@ -116,10 +118,18 @@ def session(segs, chunks_of, recv_cb="ok"):
 
     def scenario(s: vloop.Session):
         s.user("connect", s.client.connect)
+        if deaf_until is not None:
+            s.at_time(1.0 + 2.0 * deaf_until - 0.05, lambda: s.register_receiver("late"))
         for i, ch in enumerate(pieces):
             s.at_time(1.0 + 2.0 * i, lambda ch=ch: s.feed(1, ch))
             s.at_time(1.0 + 2.0 * i + 1.9, lambda: held.append(cr.held_bytes(s.client)))
-    events = sess.run(vloop.make_client_factory("waveshare"), scenario, until=1.0 + 2.0 * len(pieces) + 2.0, recv_cb=recv_cb)
+    events = sess.run(vloop.make_client_factory("waveshare"), scenario, until=1.0 + 2.0 * len(pieces) + 2.0, recv_cb=recv_cb,
+                      register="first" if deaf_until is None else "scenario")
+    unheard, pos_, arrived = [], 0, sum(len(p) for p in pieces[:deaf_until or 0])
+    for s_ in segs:
+        pos_ += len(seg_bytes(s_))
+        if s_["kind"] == "valid" and deaf_until is not None and pos_ <= arrived:
+            unheard.append(s_["token"])
     valid_msgs = {}
     from nmea2000.decoder import NMEA2000Decoder
     for s_ in segs:
@@ -137,7 +147,7 @@ def session(segs, chunks_of, recv_cb="ok"):
     packets = [s_["head"] for s_ in segs if s_["kind"] == "valid"]
     return {"disc": cr.DISC["waveshare"], "segs": segs, "chunks": chunks, "packets": packets,
             "tokens": [s_["token"] for s_ in segs if s_["kind"] == "valid"], "delivered": delivered, "held": held, "cap": 60,
-            "spin": bool(events[-1].get("spin")), "after": [], "canonical": False}
+            "spin": bool(events[-1].get("spin")), "after": [], "canonical": False, "unheard": unheard}
 
 
 def bind(chk: Check, tier: str, seed: int):
@@ -176,10 +186,23 @@ def bind(chk: Check, tier: str, seed: int):
                 continue
             recs.append(session(segs, cutters[cname]))
             meta.append(("waveshare", "ok", cname, list(pat)))
+    # nobody listens for a while (the receive callback is registered late): long runs of packets and of noise meanwhile
+    for pat in (("V",) * 8, ("V", "Long10000", "V", "V", "V"), ("V", "V", "Long3000", "V", "Nfree21", "V", "V"), ("Long5000", "Nhalf", "V", "V")):
+        for attempt in range(20):
+            segs = build(pat, pk, rng)
+            if not false_valid_window(b"".join(seg_bytes(s) for s in segs), valid):
+                break
+        else:
+            continue
+        for cname in ("split97", "split33"):
+            npieces = len(cutters[cname](b"".join(seg_bytes(s) for s in segs)))
+            for deaf in (npieces, max(1, npieces * 3 // 4), max(1, npieces // 2)):
+                recs.append(session(segs, cutters[cname], deaf_until=deaf))
+                meta.append(("waveshare", "ok", cname, list(pat) + [f"callback registered before read {deaf + 1}"]))
     v = judge(chk, wd, recs, meta, tag="c20", mode="C20")
     for k in v.get("drift", []):
         chk.drift.append(f"pattern {meta[k - 1][3]} ({meta[k - 1][2]}): delivered {recs[k - 1]['delivered']} differs from the framing model's exact output")
-    lost = sum(1 for r in recs for t in r["tokens"] if t not in r["delivered"])
+    lost = sum(1 for r in recs for t in r["tokens"] if t not in r["delivered"] and t not in r["unheard"])
     chk.gate(len(recs) >= (30 if tier == "selftest" else 150), f"only {len(recs)} sessions")
     # (how many packets a false marker costs is the implementation's business: zero is allowed, so this is a note,
     #  not a gate; the corpus itself is required to contain noise with markers)
